@@ -28,6 +28,10 @@ def run(rep, tier):
             n = json.dumps(c["norm"], sort_keys=True)
             if canon_to_norm.setdefault(key, n) != n:
                 raise vlib.ToolError("model: two different values share a canonical string: %s" % bytes(c["bytes"]))
+        # every case must have been run through the entry points: an empty or thin observation is a harness failure, not a pass
+        nruns = sum(len(who) for who in o["outcomes"].values())
+        if nruns < 4:
+            raise vlib.ToolError("case %d was executed through %d entry points only" % (o.get("i", -1), nruns))
         for oc, who in o["outcomes"].items():
             if oc == exp:
                 continue
